@@ -75,7 +75,7 @@ def draw_recording(rng, idx, fmt=None):
         s["conv"] = rng.choice([1, 10, 419430])
     if fmt == "peer":
         if rng.random() < 0.75:
-            ns = rng.choice(list(range(316, 361)) + list(range(0, 45)))
+            ns = rng.choice(list(range(316, 361)) + list(range(0, 45)) + [0, 360] * 12)
             s["codes"] = {"N": str(ns), "E": str((ns + 90) % 360), "Z": rng.choice(["UP", "VER"])}
         else:
             b = rng.choice(["HN", "BH", "HL"])
@@ -331,7 +331,11 @@ def encode_with_comp_fault(spec):
             if c == comp:
                 if kind == "missing_component":
                     continue
-                b = b.replace((", " + codes[comp] + "\n").encode(), (", " + codes[other] + "\n").encode(), 1)
+                new_code = codes[other]
+                if codes["N"].isdigit() and int(codes["N"]) % 360 == 0 and comp in ("N", "E") and len(name) % 2 == 0:
+                    # the same axis under its other name: north twice as 000 and 360, or east and west (090 and 270)
+                    new_code = ("000" if codes["N"] == "360" else "360") if comp == "E" else str((int(codes["E"]) + 180) % 360)
+                b = b.replace((", " + codes[comp] + "\n").encode(), (", " + new_code + "\n").encode(), 1)
             out.append((name, b))
         return out, exp
     # binary formats: rename / drop a trace before writing
